@@ -1,5 +1,69 @@
+(* Property C13: imports bind to the most recently loaded export, for any load/link history.
+   Only the property theorems, each closed by [exact] and followed by Print Assumptions.
+   Model: C13/Link.v (mir.c add_item, setup_global, MIR_load_module, MIR_load_external,
+   MIR_link's binding loop); proofs: C13/LinkProofs.v; non-vacuity: C13/LinkExamples.v.
+
+   Vocabulary (all defined in Link.v over the OBSERVABLE trace of a history):
+     pubs tr       the log of definitions made visible so far, oldest first: the exported items of
+                   every successfully loaded module (in item order), every MIR_load_external, and
+                   every address a link's resolver supplied
+     last_def log n  the last entry of the log for name n
+     wanted log r n  last_def log n, else the resolver's address for n, else None
+     pending tr    the modules loaded successfully since the last completed link
+     redef_of tr   the redefinition permission in force *)
 From Coq Require Import List.
-From MirV Require Import C13.Link C13.LinkProofs.
-Theorem placeholder_c13 : True.
-Proof. exact placeholder. Qed.
-Print Assumptions placeholder_c13.
+Import ListNotations.
+From MirV Require Import C13.Link C13.LinkProofs C13.LinkExamples.
+
+(* For every history p, every Link step taken after it (whatever follows): the step's output is
+   the next element of the trace, and if no error ended the history before, then
+   - a completed link reports one binding list per module loaded since the previous link, in load
+     order, and every import n of every such module is bound to the definition of n that was
+     loaded last before the step (MIR export or external), else to the resolver's address; the
+     resolver was consulted only for names with no definition;
+   - a failed link reports undeclared_op_ref and some import of some pending module has neither
+     a definition nor a resolver address. *)
+Theorem link_binds_latest : forall (p : list op) (r : resolver) (rest : list op),
+  exists out tail,
+    snd (run (p ++ Link r :: rest)) = snd (run p) ++ (Link r, out) :: tail /\
+    (dead (fst (run p)) = false -> link_step_spec (snd (run p)) r out).
+Proof. exact link_binds_latest_proof. Qed.
+Print Assumptions link_binds_latest.
+
+(* Loading a built module after any history either succeeds or raises repeated_decl, and it raises
+   it exactly when redefinition is not permitted and the module exports a FUNCTION whose name
+   already has a definition in the log (an earlier export of any kind, an external, a resolver
+   address) or earlier in the same module. *)
+Theorem link_redef_rejected : forall (h : list op) (ds : list decl) (m : modl),
+  let s := fst (run h) in
+  let tr := snd (run h) in
+  let out := snd (step s (Load ds)) in
+  dead s = false -> build ds = inl m ->
+  (out = OOk \/ out = OErr ERepeatedDecl) /\
+  (out = OErr ERepeatedDecl <-> redef_of tr = false /\ redefines (pubs tr) (loads_in tr) m).
+Proof. exact link_redef_rejected_proof. Qed.
+Print Assumptions link_redef_rejected.
+
+(* Bindings recorded for modules linked earlier are never changed by anything that follows. *)
+Theorem link_earlier_bindings_stable : forall (h later : list op),
+  exists ext, linked (fst (run (h ++ later))) = linked (fst (run h)) ++ ext.
+Proof. exact link_earlier_bindings_stable_proof. Qed.
+Print Assumptions link_earlier_bindings_stable.
+
+Theorem link_records_bindings : forall s r bs res,
+  snd (step s (Link r)) = OLinked bs res -> linked (fst (step s (Link r))) = linked s ++ bs.
+Proof. exact link_records_bindings_proof. Qed.
+Print Assumptions link_records_bindings.
+
+(* The two pieces of hidden state are functions of the observable trace: the to-link queue is
+   exactly the modules loaded since the last completed link, and the table of visible globals
+   answers every name with the last logged definition. *)
+Theorem queue_is_pending : forall h,
+  dead (fst (run h)) = false -> to_link (fst (run h)) = pending (snd (run h)).
+Proof. exact queue_is_pending_proof. Qed.
+Print Assumptions queue_is_pending.
+
+Theorem table_is_last_def : forall h n,
+  dead (fst (run h)) = false -> assoc (env (fst (run h))) n = last_def (pubs (snd (run h))) n.
+Proof. exact table_is_last_def_proof. Qed.
+Print Assumptions table_is_last_def.
